@@ -6,6 +6,8 @@
 //                                             small unrelated router and VPSC instance so that library statics are touched
 //   V <n> <m> (desired weight)*n (l r gap eq)*m     vpsc::IncSolver(vs,cs).solve(); prints positions (hex floats), the
 //                                             unsatisfiable flag and the active flag of every constraint
+//   S <mode> <n> <m> (desired weight)*n (l r gap)*m     the STATIC vpsc::Solver(vs,cs): mode 0 solve(), 1 satisfy(); prints positions
+//                                             (hex floats) and the active flag of every constraint; "SX" when it throws
 //   A <mode> <pen> <ns> (x0 y0 x1 y1)*ns <nc> (sx sy dx dy)*nc    libavoid: mode 0 polyline, 1 orthogonal; rectangles and
 //                                             free connector ends; prints every raw route (hex floats)
 //   P <seed> <k>                              cola::PseudoRandom(seed): k values of getNext()
@@ -162,6 +164,27 @@ int main()
                 printf(" |");
                 for (int i = 0; i < m; i++) printf(" %d", (int)cs[i]->unsatisfiable);
                 printf(" |");   // Constraint::active after solve(): the forest the KKT certificate is computed from
+                for (int i = 0; i < m; i++) printf(" %d", (int)cs[i]->active);
+                printf("\n");
+            }
+            for (int i = 0; i < m; i++) delete cs[i];
+            for (int i = 0; i < n; i++) delete vs[i];
+        } else if (tag == 'S') {
+            // S <mode> <n> <m> (desired weight)*n (l r gap)*m : the STATIC vpsc::Solver(vs,cs); mode 0 solve(), 1 satisfy().
+            // Prints "S <positions (hex floats)> | <Constraint::active per constraint>", or "SX" when the library throws
+            int mode, n, m; in >> mode >> n >> m;
+            vpsc::Variables vs; vpsc::Constraints cs;
+            for (int i = 0; i < n; i++) { double d = num(in), w = num(in); vs.push_back(new vpsc::Variable(i, d, w)); }
+            for (int i = 0; i < m; i++) { int l, r; in >> l >> r; double g = num(in);
+                                          cs.push_back(new vpsc::Constraint(vs[l], vs[r], g, false)); }
+            int exc = 0;
+            try { vpsc::Solver s(vs, cs); if (mode == 0) s.solve(); else s.satisfy(); }
+            catch (...) { exc = 1; }
+            if (exc) printf("SX\n");
+            else {
+                printf("S");
+                for (int i = 0; i < n; i++) printf(" %a", vs[i]->finalPosition);
+                printf(" |");
                 for (int i = 0; i < m; i++) printf(" %d", (int)cs[i]->active);
                 printf("\n");
             }
